@@ -233,6 +233,26 @@ func (ex *Exec) Discharge(timeout time.Duration, keepScripts string) []*OblResul
 					r.Seconds += sr.Seconds
 				}
 			}
+			// quantified hypotheses push the solvers off their bit-vector fast path: first try without them
+			if ex.factsHaveQuant(o) {
+				var qf []*Term
+				for _, f := range ex.facts[:o.NFacts] {
+					if !ts.HasQuant(f) {
+						qf = append(qf, f)
+					}
+				}
+				if !ts.HasQuant(o.PC) && !ts.HasQuant(o.Goal) {
+					qf = append(qf, o.PC, ts.Not(o.Goal))
+					s1 := ts.SMTScriptLocked(&ex.smtMu, qf, nil)
+					if sr := Solve(s1, timeout/2, nil); sr.Status == "unsat" {
+						r.Status, r.Solver = "proved", sr.Solver+"(quantifier-free part)"
+						r.Seconds += sr.Seconds
+						return
+					} else {
+						r.Seconds += sr.Seconds
+					}
+				}
+			}
 			sr := Solve(j.script, timeout, nil)
 			r.Solver, r.Raw = sr.Solver, sr.Raw
 			r.Seconds += sr.Seconds
@@ -257,4 +277,23 @@ func (ex *Exec) Discharge(timeout time.Duration, keepScripts string) []*OblResul
 
 func (r *OblResult) String() string {
 	return fmt.Sprintf("%-9s %s [%s %.2fs size=%d] %s %s", r.Status, r.Obl.Name, r.Solver, r.Seconds, r.Size, r.Obl.Pos, r.Obl.Note)
+}
+
+func (ex *Exec) factsHaveQuant(o *Obligation) bool {
+	ex.smtMu.Lock()
+	defer ex.smtMu.Unlock()
+	if ex.quantFact == nil {
+		ex.quantFact = map[*Term]bool{}
+	}
+	for _, f := range ex.facts[:o.NFacts] {
+		q, ok := ex.quantFact[f]
+		if !ok {
+			q = ex.ts.HasQuant(f)
+			ex.quantFact[f] = q
+		}
+		if q {
+			return true
+		}
+	}
+	return false
 }
